@@ -920,6 +920,10 @@ class C02(PersistProfile):
     def config(self, r):
         c = PersistProfile.config(self, r)
         c["cross_module_refs"] = r.choice(["none", "backward", "backward"])
+        # the writer half speaks about EVERY in-memory IR, also one whose interval stores more
+        # bytes than its size (initialized_size / contents assigned above size: outside C01's
+        # and C19's domain, so nothing is said about loading such a file)
+        c["allow_overlong"] = r.random() < 0.5
         return c
 
     def nontrivial(self, w):
